@@ -442,7 +442,7 @@ const elem = `\[\(phi\(\(φ \+ 1\)\|-1\) \+ 1\)\]` // range element index
 // ---------------------------------------------------------------- C11
 
 func checkC11(w *World, r *Report) {
-	r.Explanation = "Structural clause of C11: (B-1) every Delegatee method that changes the stake list adjusts TotalPower by the same stake's Power and SelfPower when the stake is a self stake (addStake, DelStake, DelStakeByIdx), or recomputes both from the list (doSlashAll); DelAllStakes subtracts every removed power from TotalPower and each of its call sites either runs where SelfPower == 0 or deletes the delegatee; the stake list has a closed set of writers; (B-2) every stake removed by DelStake / DelAllStakes in controller code is handed to the frozen ledger on the same success path, after its refund height was set; slashing is the only removal without destination; (B-3) a stake's owner, target and key are never written after construction; (B-4) the total-power query sums TotalPower over the immutable ledger; (B-5) several operations on one delegatee inside one block see each other through the overlay, including deletion and re-creation (C18 L-1). B-4 is evaluated per request path: every successful answer to stakes/total_power comes from one unfiltered scan of the immutable delegatee ledger (sum in the callback, or every delegatee collected and the whole list summed). B-1 also requires that every return of DelAllStakes is dominated by the emptying store and by the loop that subtracts the removed powers and hands back the whole former list, unless the list is known to be empty there."
+	r.Explanation = "Structural clause of C11: (B-1) every Delegatee method that changes the stake list adjusts TotalPower by the same stake's Power and SelfPower when the stake is a self stake (addStake, DelStake, DelStakeByIdx), or recomputes both from the list (doSlashAll); DelAllStakes subtracts every removed power from TotalPower and each of its call sites either runs where SelfPower == 0 or deletes the delegatee; the stake list has a closed set of writers; (B-2) every stake removed by DelStake / DelAllStakes in controller code is handed to the frozen ledger on the same success path, after its refund height was set; slashing is the only removal without destination; (B-3) a stake's owner, target and key are never written after construction; (B-4) the total-power query sums TotalPower over the immutable ledger; (B-5) several operations on one delegatee inside one block see each other through the overlay, including deletion and re-creation (C18 L-1). B-4 is evaluated per request path: every successful answer to stakes/total_power comes from one unfiltered scan of the immutable delegatee ledger (sum in the callback, or every delegatee collected and the whole list summed). B-1 also requires that every return of DelAllStakes is dominated by the emptying store and by the loop that subtracts the removed powers and hands back the whole former list, unless the list is known to be empty there. (B-7) no execution of the stake controller fails after its first effect: the delegatee it works on is the cached object itself (C05 A-3)."
 	r.NotCovered = "the sums as numbers over a history; the ledger's overlay semantics (C18); JSON round-trip of delegatees."
 	b1(w, r)
 	b2(w, r)
@@ -457,6 +457,26 @@ func checkC11(w *World, r *Report) {
 	// the same record after its deletion (the commit applies removals before updates,
 	// so the emptied record — with stale SelfPower — would come back) (C01 D-6)
 	importNoResurrect(w, r, "B-6")
+	// B-7: the delegatee handed out by the ledger is the cached object itself: what a
+	// staking or un-staking execution changes before it fails stays in the cache and is
+	// written with the next successful operation on that delegatee — a stake removed
+	// and recorded nowhere. No stake execution fails after its first effect (C05 A-3).
+	{
+		tmp := NewReport(r.Prop, r.Tier)
+		a3(w, tmp)
+		n := 0
+		for _, o := range tmp.Obs {
+			if o.Rule == "A-3" && strings.Contains(o.Key, "stake.(*StakeCtrler)") {
+				o.Rule = "B-7"
+				o.Key = "B-7:" + strings.TrimPrefix(o.Key, "A-3:")
+				r.Obs = append(r.Obs, o)
+				n++
+			}
+		}
+		if n < 2 {
+			r.Undecided("B-7", "stake-executions", "the no-error-after-effect rules (C05 A-3) matched fewer than 2 stake functions")
+		}
+	}
 	r.Floor("B-1", 12, "power bookkeeping")
 	r.Floor("B-2", 5, "one place per stake")
 	r.Floor("B-3", 3, "immutable stake identity")
